@@ -345,8 +345,9 @@ def main(argv=None):
         'wall_s': round(wall, 2),
         'violations': len(viol_lines),
     }
-    os.makedirs(os.path.join(VERIF, 'evidence'), exist_ok=True)
-    json.dump(ev, open(os.path.join(VERIF, 'evidence', prop + '.json'), 'w'), indent=1)
+    evdir = os.environ.get('PYVC_EVIDENCE_DIR') or os.path.join(VERIF, 'evidence')     # developer runs on modified trees write elsewhere
+    os.makedirs(evdir, exist_ok=True)
+    json.dump(ev, open(os.path.join(evdir, prop + '.json'), 'w'), indent=1)
     print('%s tier=%s: %d obligations, %d discharged, %d known-finding, %d undecided, %d violation(s); %d bounded stand-ins; %.1fs'
           % (prop, tier, n_obl, n_dis, len(known_names), len(still_undecided), len(viol_lines), len(bounded), wall))
     return exit_code
